@@ -298,4 +298,40 @@ theorem response_refines (size bs : Nat) (q : Ranges) (hs : size ≤ 2 ^ 63) :
   rw [this]
   rfl
 
+/-! ## the root level, characterised without `next_power_of_two` -/
+
+/-- the shifted root level `h` is the least `h` with `blocks ≤ 2^(h+1)` -/
+theorem rootLevel_char (size bs : Nat) (hs : size ≤ 2 ^ 63) :
+    Tree.blocks ⟨size, bs⟩ ≤ 2 ^ (rootLevel ⟨size, bs⟩ + 1) ∧
+    (rootLevel ⟨size, bs⟩ = 0 ∨ 2 ^ rootLevel ⟨size, bs⟩ < Tree.blocks ⟨size, bs⟩) := by
+  have hdiv := Nat.div_le_self size (2 ^ (10 + bs))
+  obtain ⟨hh, hroot, _⟩ := rootLevel_spec size bs hs
+  generalize rootLevel ⟨size, bs⟩ = h at *
+  rw [nodeOf_zero_left] at hroot
+  unfold Tree.shifted at hroot
+  unfold Tree.blocks Tree.blocksRaw
+  simp only [Nat.add_comm bs 10] at hroot ⊢
+  generalize hB : max (size / 2 ^ (10 + bs) + if size % 2 ^ (10 + bs) ≠ 0 then 1 else 0) 1 = B
+    at hroot ⊢
+  have hB1 : 1 ≤ B ∧ B ≤ 2 ^ 63 + 1 := by
+    rw [← hB]; split <;> omega
+  obtain ⟨j, hj, e, hle, hmin⟩ := nextPow2_spec (x := divCeil2 B) (by unfold divCeil2; omega)
+  rw [e] at hroot
+  have hpj := two_pow_pos' j
+  have hph := two_pow_pos' h
+  have hjh : j = h := (Nat.pow_right_inj (a := 2) (by decide)).1 (by omega)
+  subst hjh
+  unfold divCeil2 at hle hmin
+  rw [Nat.pow_succ]
+  refine ⟨by omega, ?_⟩
+  rcases hmin with h0 | hmin
+  · exact Or.inl h0
+  · right
+    cases j with
+    | zero => simp at hmin; omega
+    | succ i =>
+      simp only [Nat.add_sub_cancel] at hmin
+      rw [Nat.pow_succ]
+      omega
+
 end Bao.PlanPre
